@@ -279,7 +279,7 @@ CONC_PROGS = {
                          "mc": [("T2", "P21"), ("T3", "P3mix"), ("T3", "P3one"), ("T4", "P4one"), ("T2", "P23")]}},
 }
 CONC_PROGS["C12"] = {
-    "quick": {"dfs": [[["once"], ["once"]], [["once", "any"], ["once", "any"]], [["once"], ["once"], ["once"]]],
+    "quick": {"dfs": [[["once"], ["once"]], [["once", "any"], ["once", "any"]], [["once"], ["once"], ["once"]], [["any", "any"], ["any", "any"]]],
               "free": [[["once"], ["once"], ["once"], ["once"]]], "free_runs": 300, "mc": [("T2", "P2once"), ("T3", "P3mix")],
               "tuple_dfs": [[["once"], ["once"]], [["once"], ["once"], ["once"]]], "tuple_free": [[["once"], ["once"], ["once"], ["once"]]]},
     "thorough": {"dfs": [[["once"], ["once"]], [["once", "any"], ["once", "any"]], [["once"], ["once"], ["once"]], [["once"], ["once"], ["once"], ["once"]],
